@@ -4,7 +4,8 @@ chunking, source alignment and build; one-shot, hex-string and streaming entry p
 (i)  TLC model-checks the streaming state machine specs/crypto/HashStream.tla exhaustively at abstract scale (B=4, L=1,
      all messages 0..3B+1 over two symbols, all partitions into <=4 update calls incl. empty ones; MD big/little endian
      and the GOST padding kind): carry-over invariant, final = Blocks(Pad(msg)), chunking independence, context empty.
-(ii) TLC enumerates the abstract chunking shapes; they are scaled to the real block sizes (cut positions 4q+r ->
+(ii) deterministic boundary-content messages (all-0x00 / all-0xff / alternating at 1-3 blocks + tail, Streebog checksum
+     carry chains, bit-length byte boundaries) plus: TLC enumerates the abstract chunking shapes; they are scaled to the real block sizes (cut positions 4q+r ->
      q*B+rho(r), rho hitting 55/56/63 resp. 111/112/127), rendered with seeded random content and source alignments
      0..63 and run through harness/hash_drv.c in every build variant (SIMD disabled as the suite, SSE4.1, AVX, AVX2,
      SHA-NI, small tables x gcc/clang x -O0/-O2/-O3 in the thorough tier).
@@ -40,7 +41,7 @@ def model_check(ctx):
 def scenarios(ctx, shapes, rnd):
     """seeded sample sized by the TLC evaluation budget per family"""
     budget_ms = (30000 if ctx.quick else 600000)          # CPU time of TLC evaluation per family (4 workers share it)
-    scen = []; blocks = {}
+    scen = []; blocks = {}; detblocks = {}
     fam_algs = {}
     for a, (B, L, fam) in ALGS.items(): fam_algs.setdefault(fam, []).append(a)
     align_cycle = {a: 0 for a in ALGS}
@@ -60,6 +61,38 @@ def scenarios(ctx, shapes, rnd):
             msg = hashrig.rbytes(rnd, n)
             cut = rnd.randint(0, n)
             add(alg, msg, [cut, 0, n - cut] if n else [0], rnd.randint(0, 63))
+        # DETERMINISTIC boundary-content messages (both tiers, outside the sampling budget): carry chains that random
+        # content never produces - through the 512-bit checksum Sigma of GOST R 34.11-2012 (every 64-bit word all ones
+        # with a carry arriving, addend all ones / zero / 0x80..), through word additions of the MD-style compression
+        # functions (all-0x00, all-0xff, alternating) and through the byte boundaries of the bit-length field
+        # (31/32/33 bytes = 0xf8/0x100/0x108 bits).  Expectations come from the TLA+ reference like everything else.
+        det = 0
+        def add_det(alg, msg):
+            nonlocal det
+            n = len(msg); cut = rnd.randint(0, n)
+            scen.append({"kind": "hash", "alg": alg, "align": rnd.randint(0, 63), "msg": msg,
+                         "chunks": [cut, n - cut] if det % 2 else [n], "key": None})
+            det += hashrig.est_blocks(alg, n)
+        ff, zz = b"\xff", b"\x00"
+        for alg in algs:                                     # every variant: two all-ones blocks and a tail
+            add_det(alg, ff * (2 * B + 5))
+        fills = [zz * (B + 3), ff * (3 * B), (b"\xaa\x55" * B)[:2 * B + (B - L - 1)], zz * (2 * B) + ff * 7,
+                 ff * (B - L - 1), (b"\x55\xaa" * B)[:B + 1], zz * 31, ff * 32, (b"\xaa\x55" * 17)[:33]]
+        for i, m in enumerate(fills):
+            add_det(algs[i % len(algs)], m)
+        if fam == "gost3411-2012":
+            w1 = zz * 7 + b"\x80"                            # the 64-bit word 0x8000000000000000, little endian
+            special = [ff * 64 + b"\x01" + zz * 63 + b"abc",                      # Sigma = 2^512-1, then +1: carry through all 8 words
+                       w1 + ff * 56 + w1 + zz * 56,                               # 0x80..+0x80.. = carry into all-ones words, addend 0
+                       w1 + ff * 8 + zz * 48 + w1 + ff * 8 + zz * 48 + w1,        # carry into all-ones word with all-ones addend
+                       ff * 64 + ff * 64 + ff * 64 + ff * 63,                     # three full all-ones blocks + an all-ones tail
+                       zz * 8 + ff * 56 + zz * 8 + b"\x01" + zz * 55 + ff * 9]    # carry born in word 1, runs to the top
+            for i, m in enumerate(special):
+                add_det(algs[i % 2], m); add_det(algs[(i + 1) % 2], m)
+        if not ctx.quick:                                    # bit-length field carries further up: 0xFFF8 -> 0x10000 bits
+            for n in (8191, 8192):
+                add_det(algs[n % len(algs)], ff * n)
+        detblocks[fam] = det
         # long multi-block messages: bulk path on unaligned memory
         for n in ([7 * B + 3] if ctx.quick else [7 * B + 3, 16 * B, 33 * B + 17, 2000, 4099]):
             alg = algs[len(scen) % len(algs)]
@@ -76,7 +109,8 @@ def scenarios(ctx, shapes, rnd):
             chunks = hashrig.scale_shape(sh, B, L, rnd)
             msg = hashrig.rbytes(rnd, sum(chunks))
             add(alg, msg, chunks, align_cycle[alg] % 64); align_cycle[alg] += 1
-        blocks[fam] = used
+        blocks[fam] = used + det
+    ctx.add(deterministic_boundary_content_blocks=detblocks)
     return scen, blocks
 
 def run(ctx):
